@@ -290,6 +290,8 @@ fn tally(st: &mut Stats, sc: &Scenario, res: &exec::RunResult, j: &Judged) {
     if let Some(c) = &sc.comp {
         hit("component_far_location_site", !c.far.is_empty());
         hit("component_pre_op", !c.pre.is_empty());
+        hit("component_add_module", !c.added.is_empty());
+        hit("component_add_module_behind_a_non_module_section", !c.added.is_empty() && !matches!(c.layout.last(), Some(c26::Piece::Module(_))));
         hit("component_iterator_add_local_or_global", !c.extras.is_empty());
         hit("component_custom_sections_in_3_or_more_runs", {
             let mut runs = 0;
@@ -382,6 +384,11 @@ fn gen_for(def: &CheckDef, verif_seed: u64, run_no: u64) -> Result<Scenario, Str
     let run_seed = run_seed_of(verif_seed, def.id, run_no);
     if def.id == "C26" {
         return c26::gen_c26(run_seed);
+    }
+    if def.id == "C04" && run_no % 5 == 4 {
+        // the component share of C04: ComponentIterator keeps its per-module metadata and skip lists in
+        // hash maps; the encoded component must not depend on their iteration order
+        return c26::gen_c26_for("C04", run_seed);
     }
     if def.id == "C28" && run_no % 6 == 5 {
         // the component share of C28: custom sections between the modules of a component whose modules
@@ -477,7 +484,8 @@ fn check_cmd(id: &str, tier: &str, verif_seed: u64) -> i32 {
                             let (j, res, eff) = judge(def.id, &sc, hs);
                             tally(&mut local, &eff, &res, &j);
                             if def.id == "C04" && n < xp_runs {
-                                xp_digests.lock().unwrap().push((n, checks::outcome_digest(&res)));
+                                let d = if sc.comp.is_some() { rng::hash_str(&checks::c04_outcome(&sc)) } else { checks::outcome_digest(&res) };
+                                xp_digests.lock().unwrap().push((n, d));
                             }
                             if n < 3 {
                                 local.samples.push(sample_of(&eff));
@@ -981,11 +989,7 @@ fn c04_proc_cmd(verif_seed: u64, count: u64, workers: usize) -> i32 {
                     }
                     match gen_for(&def, verif_seed, n) {
                         Err(_) => local.push((n, "generr".to_string())),
-                        Ok(mut sc) => {
-                            sc.hash_seed = 0;
-                            let r = exec::run(&sc);
-                            local.push((n, format!("{:016x}", checks::outcome_digest(&r))));
-                        }
+                        Ok(sc) => local.push((n, format!("{:016x}", rng::hash_str(&checks::c04_outcome(&sc))))),
                     }
                 }
                 lines.lock().unwrap().extend(local);
@@ -1016,7 +1020,11 @@ fn c04_one_cmd(path: &str) -> i32 {
         let sc = sc.clone();
         let line = std::thread::spawn(move || {
             exec::install_logger();
-            checks::outcome_text(&exec::run(&sc))
+            if sc.comp.is_some() {
+                c26::comp_outcome(&sc)
+            } else {
+                checks::outcome_text(&exec::run(&sc))
+            }
         })
         .join()
         .unwrap_or_else(|_| "thread panicked".into());
